@@ -16,7 +16,7 @@ import (
 )
 
 var c08Pool = []string{
-	"/", "/a", "/a/b", "/a/?b", "/a/?{o}", "/?a", "/?{r}", "/?a/b", "/a/?b/c", "/a//b", "//a", "/a/", "/{x}", "/{y}", "/{x}/{x}", "/{x}/{x: **}", "/{x: /a+/}-{x}", "/{x}/b/{x: /[0-9]+/}",
+	"/", "/a", "/a/b", "/a/?b", "/a/?{o}", "/?a", "/?{r}", "/?a/b", "/a/?b/c", "/a//b", "//a", "/a/", "/{x}", "/{y}", "/{x}/{x}", "/{x}/{x: **}", "/{x: /a+/}-{x}", "/{x}/b/{x: /[0-9]+/}", "/{x}/{a: **}/b/{x}", "/r/{n: /[0-9]+/}/c/{n}", "/{x: /a+/}/{q: **}/{x}",
 	"/{a: **}/{b: **}/c", "/{a: **}/{b: **}", "/x/{a: **}", "/x/{b: **}", "/{a: **}/x", "/{b: **}/y", "/{a: **}/y", "/{a: **, capture: 2}/x", "/{**}", "/{q: /(/}", "/{q: /a)(b/}", "/{q: /[0-9/}/z",
 	"/{q: /(a|b)+/}/z", "/{q: /[0-9]+/}", "/{q: /[0-9]+/}/z", "/v{n: /[0-9]+/}", "/a/{p}/?{o}", "/a/b/?c", "/{x}-{z}", "/{x}.{x}",
 }
